@@ -155,13 +155,13 @@ static ll shash(const std::string& s) { return fold(fnv(s.data(),s.size())); }
 static ll mhash(const double* d,size_t n) { return fold(fnv(d,n*sizeof(double))); }
 
 struct Catalog {
-    std::vector<std::vector<std::string>> G,S,M,L;     // G: {"G",geom,cond} or {"I",name,path,...}
+    std::vector<std::vector<std::string>> G,S,M,L,X,Y;     // G: {"G",geom,cond} or {"I",name,path,...}
     Catalog() {
         std::ifstream in("catalog.txt"); std::string line;
         while (std::getline(in,line)) {
             std::istringstream ls(line); std::vector<std::string> t; std::string x; while (ls >> x) t.push_back(x);
             if (t.empty()) continue;
-            if (t[0]=="G" || t[0]=="I") G.push_back(t); else if (t[0]=="S") S.push_back(t); else if (t[0]=="M") M.push_back(t); else if (t[0]=="L") L.push_back(t);
+            if (t[0]=="G" || t[0]=="I") G.push_back(t); else if (t[0]=="S") S.push_back(t); else if (t[0]=="M") M.push_back(t); else if (t[0]=="L") L.push_back(t); else if (t[0]=="X") X.push_back(t); else if (t[0]=="Y") Y.push_back(t);
         }
     }
 };
@@ -445,6 +445,60 @@ static Wire run_compute(Reader& r) {
     return out;
 }
 
+// ---- machine 8: point-locating assemblies interleaved on SEVERAL Geometry objects alive in one process
+struct Multi {
+    std::vector<Geometry*> geos; Matrix dip,pts; std::string src;
+    Multi(const std::vector<size_t>& which) {
+        for (size_t k : which) { const auto& t = catalog().X.at(k); geos.push_back(new Geometry(t[1],t[2])); }
+        dip = Matrix(3,6); const double d[3][6] = { {0,0,0.2,0,0,1},{0.1,0,0.3,1,0,0},{0,0.2,0.1,0,1,0} };
+        for (unsigned i=0;i<3;++i) for (unsigned j=0;j<6;++j) dip(i,j) = d[i][j];
+        pts = Matrix(2,3); pts(0,0)=0; pts(0,1)=0; pts(0,2)=0.1; pts(1,0)=0.05; pts(1,1)=0.05; pts(1,2)=0.3;
+        src = catalog().Y.at(0)[1];
+    }
+    static ll geo_fp(Geometry& geo) {
+        Wire g = geom_obs(0,geo); ll gh = fnv(g.data(),g.size()*sizeof(ll));
+        for (const auto& v : geo.vertices()) { double c[3] = { v.x(),v.y(),v.z() }; gh = fnv(c,sizeof c,gh); unsigned ix = v.index(); gh = fnv(&ix,sizeof ix,gh); }
+        for (const auto& m : geo.meshes()) { bool f[3] = { m.outermost(),m.current_barrier(),m.isolated() }; gh = fnv(f,sizeof f,gh); for (const auto& tr : m.triangles()) { unsigned ix = tr.index(); gh = fnv(&ix,sizeof ix,gh); } }
+        for (const auto& d : geo.domains()) { double c = d.conductivity(); gh = fnv(&c,sizeof c,gh); }
+        return fold(gh);
+    }
+    std::vector<ll> snapshot() { std::vector<ll> v; for (auto g : geos) v.push_back(geo_fp(*g)); v.push_back(mhash(dip.data(),dip.size())); v.push_back(mhash(pts.data(),pts.size())); return v; }
+    ll op(size_t g,size_t t) {
+        const Geometry& geo = *geos.at(g);
+        switch (t) {
+            case 0: { const Matrix X = DipSourceMat(geo,dip,""); return mhash(X.data(),X.size()); }
+            case 1: { const Matrix X = DipSource2InternalPotMat(geo,dip,pts,""); return mhash(X.data(),X.size()); }
+            case 2: { const Matrix X = Surf2VolMat(geo,pts); return mhash(X.data(),X.size()); }
+            case 3: { Mesh m; m.load(src,false); const Matrix X = SurfSourceMat(geo,m,Integrator(3,0,0.005)); return mhash(X.data(),X.size()); }
+            default: throw Reader::Malformed();
+        }
+    }
+};
+// c17 8 ngeo nops {g t}* : all geometries alive; (result or -status, mask of changed operands) per operation
+static Wire run_multi(Reader& r) {
+    const size_t ngeo = r.n(); std::vector<size_t> which; for (size_t k=0;k<ngeo;++k) which.push_back(k);
+    Multi M(which);
+    const std::vector<ll> ref = M.snapshot();
+    Wire out{ (ll)ref.size() }; out.insert(out.end(),ref.begin(),ref.end());
+    const size_t nops = r.n();
+    for (size_t q=0;q<nops;++q) {
+        const size_t g = r.n(), t = r.n(); ll fp = 0;
+        const ll st = guarded_om([&]() { fp = M.op(g,t); });
+        const std::vector<ll> now = M.snapshot(); ll mask = 0;
+        for (size_t i=0;i<ref.size();++i) if (now[i]!=ref[i]) mask |= (1LL<<i);
+        out.push_back(st ? -st : fp); out.push_back(mask);
+    }
+    return out;
+}
+// c17 81 g t : the only geometry of the process
+static Wire multi_fresh(Reader& r) {
+    const size_t g = r.n(), t = r.n();
+    Multi M(std::vector<size_t>{ g }); ll fp = 0;
+    const ll gf = Multi::geo_fp(*M.geos[0]);
+    const ll st = guarded_om([&]() { fp = M.op(0,t); });
+    return Wire{ st ? -st : fp,gf,mhash(M.dip.data(),M.dip.size()),mhash(M.pts.data(),M.pts.size()) };
+}
+
 static Wire dispatch(const std::string& comp,Reader& r) {
     if (comp!="c17") return Wire{-1};
     const size_t m = r.n();
@@ -464,6 +518,8 @@ static Wire dispatch(const std::string& comp,Reader& r) {
         case 41: return mesh_fresh(r.n());
         case 21: return geom_fresh_refinalize(r.n());
         case 6: return run_compute(r);
+        case 8: return run_multi(r);
+        case 81: return multi_fresh(r);
         case 5: return run_linop(r,false);
         case 50: return run_linop(r,true);
         case 10: {  // write the fixed object of kind k with the explicit format g into w.out
